@@ -449,6 +449,12 @@ func (c *Ctx) Array(t *rapid.T, depth, arrDepth int) *model.Node {
 		}
 		n.MaxItems = model.IntP(rapid.IntRange(lo, lo+3).Draw(t, "maxitems"))
 	}
+	if n.Items.Kind == model.KArray && !n.Items.Nullable && p.avoid("arrays.nested_levels_differ") {
+		// known finding: nested levels are checked against the outer bounds
+		for it := n.Items; it != nil && it.Kind == model.KArray; it = it.Items {
+			it.MinItems, it.MaxItems = n.MinItems, n.MaxItems
+		}
+	}
 	return n
 }
 
